@@ -70,6 +70,9 @@ type pipeOpt struct {
 	msgs      []wire
 	raw       [][]byte // raw bytes sent after the protocol handshake instead of msgs
 	rawK      func(key []byte) [][]byte // ... that need the session key
+	// incomplete: the raw bytes end inside a frame; the remote then stays silent until the node's read
+	// deadline passes (modelled: the deadline fires once the node waits for bytes that do not come)
+	incomplete bool
 }
 
 func playPipe(m *meter, opt pipeOpt) string {
@@ -179,6 +182,11 @@ func playPipe(m *meter, opt pipeOpt) string {
 	}
 	// liveness: a valid status request is answered, or the connection is closed
 	d.send(frame(r.key, 0x04, enc(&network.GetLatestStatus{})))
+	if opt.incomplete {
+		if d.waitUntil(func(d *duplex) bool { return d.waiting > 0 && len(d.in) == 0 }, m.stop) {
+			d.fireDeadline()
+		}
+	}
 	sent := map[uint32]bool{}
 	answered := false
 	for {
@@ -326,7 +334,7 @@ func pipeFamilies(w *world) []*Family {
 			"junk":               bytes.Repeat([]byte{0x5a}, 1000),
 		}
 		for _, n := range []string{"7-byte-frame", "zero-length-frame", "bad-magic", "too-long", "max-declared-empty", "16-zero-bytes", "junk"} {
-			emit(pipe("pipe/after-handshake/raw="+n, pipeOpt{hsCode: 0x02, hsPayload: hs.payload, raw: [][]byte{raws[n]}}))
+			emit(pipe("pipe/after-handshake/raw="+n, pipeOpt{hsCode: 0x02, hsPayload: hs.payload, raw: [][]byte{raws[n]}, incomplete: n == "max-declared-empty"}))
 		}
 		// frames with a plaintext shorter than the code, under the real session key
 		for l := 0; l < 4; l++ {
